@@ -191,11 +191,15 @@ def run(tier, seed, shard, nshards):
             directive = progs.CPU_FILES.get(cpu, cpu)
             unit = units.get(directive, 1)
             templates = templates_of(cpu)
-            if tier == "quick" and len(templates) > 20:
-                # deterministic per-cpu base sample + a seeded extra sample
-                base = templates[::max(1, len(templates) // 12)][:12]
-                extra = rnd.sample(templates, 8)
-                templates = base + [x for x in extra if x not in base]
+            if tier == "quick" and len(templates) > 30:
+                # one-operand forms first (branches, jumps, calls, pushes: the hole is the whole operand list), then a
+                # deterministic spread over the rest and a seeded extra sample
+                single = [x for x in templates if not x[2] and "," not in x[0]]
+                single = single[::max(1, len(single) // 12)][:12]
+                rest = [x for x in templates if x not in single]
+                base = rest[::max(1, len(rest) // 12)][:12]
+                extra = rnd.sample(rest, min(6, len(rest)))
+                templates = single + base + [x for x in extra if x not in base]
             for t, span, is_reg, key in templates:
                 try:
                     res = check_template(w, s, cpu, directive, unit, t, span, is_reg)
